@@ -375,6 +375,17 @@ func c02(x *mon.Ctx) {
 	x.Rule = "pairs of freshly generated PKIs with identical subject names: (quote from A, pool from B / {} / nil / {A} / {A,B} / single non-root anchors), look-alike substitution of every chain element, role-confusion chains with the QE report re-signed by the substituted certificate's key (so only the role/path checks can reject), chain-shape variants; judged by must-reject / must-accept expectations and by an independent path predicate (raw ECDSA over TBS bytes, pool members are anchors). Root-of-trust configurations: every subset of 3 PKIs as files / inline / mixed, exact oracle 'quote from X accepted iff X listed' (empty configuration => only the Intel samples under the embedded root; empty or non-PEM bundle => error). Non-trivial = derived from a twin the library accepted; distinct = distinct (class, world pair, level, form)."
 	x.Assume = []string{"Go crypto/x509 path building is correct", "ECDSA unforgeability"}
 	enableShadow(x)
+	{ // a collateral getter that panics instead of returning: a quote under a foreign root is still not reported as verified
+		r := x.Rand("crashing-getter")
+		a := richHonest(r)
+		b := world.Honest(r, world.HonestOpts{Platform: a.P})
+		w := a.Clone()
+		w.Roots = certs(b.PKI.Root)
+		crashingCollaborators(x, "foreign-root-and-a-crashing-getter", w.Case(world.LColl, "pool-of-another-pki", "crashing-getter"))
+		w = a.Clone()
+		w.Roots = []*x509.Certificate{}
+		crashingCollaborators(x, "empty-pool-and-a-crashing-getter", w.Case(world.LColl, "pool-empty", "crashing-getter"))
+	}
 	fl := faults02()
 	nw := x.Pick(6, 60)
 	x.Each(nw*len(fl), func(i int) {
